@@ -35,7 +35,7 @@ config H
     default 0x10
 endmenu
 '''
-RENAMES = "CONFIG_OLDA CONFIG_A\n"
+RENAMES = "CONFIG_OLDA CONFIG_A\nCONFIG_OLDA2 CONFIG_A\nCONFIG_OLDA3 !CONFIG_A\nCONFIG_OLDN CONFIG_N\nCONFIG_OLDN2 CONFIG_N\n"
 # c3: a value outside ASCII (bytes and characters differ in number)
 CONFIGS = {"c0": {}, "c1": {"A": "n", "N": "7"}, "c2": {"S": 'long "q" \\ text'}, "c3": {"S": "caf\u00e9 \u2615"}}
 
@@ -253,6 +253,52 @@ def expected_texts(run, fn):
     return out, None
 
 
+def cross_process(run):
+    """Regeneration by another process: every build runs kconfgen anew, with its own hash seed.  An unchanged
+    configuration must leave every output untouched then, too (several aliases per option in the rename table)."""
+    import subprocess
+    import sys
+
+    from ..common import REPO
+
+    g = gen_inputs(run)
+    d = run.sub("xproc")
+    os.makedirs(d, exist_ok=True)
+    sdk = os.path.join(d, "sdkconfig")
+    shutil.copyfile(g["c1"], sdk)
+    outs = {fmt: os.path.join(d, "out." + fmt) for fmt in ("config", "header", "cmake", "json", "json_menus", "docs")}
+    cmd = [sys.executable, "-m", "kconfgen", "--kconfig", g["kconfig"], "--config", sdk, "--sdkconfig-rename", g["rename"]]
+    for fmt, p in outs.items():
+        cmd += ["--output", fmt, p]
+    first = {}
+    n = 0
+    for seed in ("1", "2", "3", "4", "5", "0"):
+        env = dict(os.environ, PYTHONHASHSEED=seed, PYTHONPATH=REPO, IDF_TARGET="esp32", KCONFIG_REPORT_VERBOSITY="quiet")
+        r = subprocess.run(cmd, cwd=d, env=env, capture_output=True, text=True)
+        if r.returncode != 0:
+            run.report("kconfgen (subprocess, hash seed %s) failed: %s" % (seed, r.stderr[-300:]), {"cmd": cmd, "stderr": r.stderr[-1000:]}, {"kconfgen-subprocess", "exception"})
+            return n
+        for fmt, p in outs.items():
+            with open(p, newline="") as f:
+                text = f.read()
+            sig = stat_sig(p)
+            if fmt not in first:
+                os.utime(p, ns=(10**18, 10**18))
+                first[fmt] = (text, stat_sig(p))
+            else:
+                n += 1
+                if text != first[fmt][0] or sig != first[fmt][1]:
+                    a, b = first[fmt][0].splitlines(), text.splitlines()
+                    diff = next(((x, y) for x, y in zip(a, b) if x != y), (len(a), len(b)))
+                    run.report(
+                        "kconfgen:%s (another process, hash seed %s): UnchangedUntouched fails: the output of an unchanged configuration was rewritten (%s)" % (fmt, seed, "contents differ: %r" % (diff,) if text != first[fmt][0] else "same contents, file replaced or touched"),
+                        {"format": fmt, "hash_seed": seed, "first_difference": diff, "rename_file": RENAMES},
+                        {"UnchangedUntouched", "kconfgen:" + fmt, "cross-process"},
+                    )
+                    first[fmt] = (text, sig)
+    return n
+
+
 def main(run):
     tier = run.tier
     # 1. the model
@@ -304,11 +350,26 @@ def main(run):
                                 traces.append({"id": len(traces), "events": ev})
                                 meta.append(dict(writer=name, prev=prev, new=new, link=link, stale=stale, crash_at=k_, torn=torn))
     run.add("evaluations", len(traces))
+    run.cov["cross_process_regenerations"] = cross_process(run)
 
     # 3. validation by TLC
+    # TLC only sees 7-bit text: its on-disk state queue does not round-trip other characters (a large batch gave
+    # verdicts that a small one did not).  The encoding is character-wise, hence compatible with concatenation
+    # and with torn chunks.
+    def ascii7(x):
+        if isinstance(x, str):
+            return x.encode("unicode_escape").decode("ascii")
+        if isinstance(x, list):
+            return [ascii7(v) for v in x]
+        if isinstance(x, dict):
+            return {k: (ascii7(v) if k in ("d", "data", "new", "dest", "old", "disk", "events") else v) for k, v in x.items()}
+        return x
+
     path = run.sub("save_traces.json")
     with open(path, "w") as f:
-        json.dump({"traces": traces}, f)
+        json.dump({"traces": [ascii7(t) for t in traces]}, f)
+    if os.environ.get("VERIF_KEEP_TRACES"):
+        shutil.copyfile(path, os.environ["VERIF_KEEP_TRACES"])
     res2 = run_tlc("Trace_Save", "Trace_Save.cfg", run, env={"SAVE_TRACES": path}, workers=1, tag="trace")
     require_ok(res2, "Trace_Save")
     run.add("states", res2.distinct)
